@@ -14,15 +14,17 @@ PROP = {'gen': [],
                'loop can observe them and every kernel schedule: an invariant kept by every move and every poll (unanswered wake => byte '
                'in the socket; unanswered SIGWINCH => flag set; input returned ++ queued ++ waiting = arrived), a wake in the pipeline is '
                'returned or stays in the pipeline through every poll, an iteration that passes select with a byte in the socket queues '
-               'Wake, events leave oldest first, a flagged termination signal makes the iteration return an error, every returning path '
-               'of dispose restores the saved line settings (unless the tty is gone) and has queued the closing sequence, which is '
-               'delivered iff the queue drains. The model is tied to the code by scripted pty sessions whose poll results, restored '
+               'Wake, a poll with a wake in the pipeline never sleeps and returns as soon as an event is queued and the tty takes no more '
+               'output, a returning poll returns the oldest event (FIFO), a flagged termination signal makes the iteration return an '
+               'error, every returning path of dispose restores the saved line settings (unless the tty is gone) and has queued the '
+               'closing sequence, which is delivered whenever the tty accepts the slice in the first iteration. The model is tied to the code by scripted pty sessions whose poll results, restored '
                'settings and closing sequence it predicts. Real preemption inside system calls, signal latency and wall-clock bounds '
                'are not exhibited by the model.',
  'level_note': 'proof of the modelled state machine + scripted correspondence; partial. Trusted: Coq kernel + vm_compute; hand-written '
                'model IO/PollLoop.v; assumption select_level_triggered (select reports exactly the descriptors that are ready when it '
                'is called); signal-hook semantics as read from its source (pipe drained, flags in signal-number order); the decoder is '
-               'abstracted to tokens (C02/C03). Two boundary behaviours are recorded as known findings. No axioms.',
+               'abstracted to tokens (C02/C03). Three defects found and fixed (de62e95, 68e120b, 1cf853f); domain assumption: the peer '
+               'eventually reads. No axioms.',
  'technique': 'Coq proof (invariants of a transition system under arbitrary schedules) + scripted pty correspondence; partial',
  'design_ref': 'DESIGN.md 6.17',
  'n_quick': 300,
@@ -40,4 +42,8 @@ PROP = {'gen': [],
                  'system calls are atomic with respect to environment moves; moves may happen between any two of them',
                  'time is abstract: the loop test sees an arbitrary (schedule-given) answer to `timeout_instant < now`',
                  'input is modelled as already decoded tokens; a read returns a non-empty prefix of the waiting tokens',
-                 'no panic in the crate during poll/dispose (C16 for the queue); panics as crash points are not modelled']}
+                 'no panic in the crate during poll/dispose (C16 for the queue); panics as crash points are not modelled',
+                 'the peer eventually reads: the closing sequence cannot be delivered to a peer that never does (dispose waits 1 s per poll)',
+                 'wake(): the one-byte write on the non-blocking waker socket succeeds or fails with EAGAIN (EINTR, also swallowed by the '
+                 'code, does not occur there)',
+                 'arrival order is per source; events of different sources ready in the same iteration are queued signals, waker, input']}
